@@ -58,4 +58,16 @@ def run(tier):
 
 
 def replay(path):
+    import json
+    with open(path) as f:
+        doc = json.load(f)
+    case = doc.get('case') or {}
+    if isinstance(case, dict) and 'memory_copy' in case:
+        from props import paging
+        bad = paging.replay_memory_copy()
+        print('replaying', doc.get('key'), [b[1] for b in bad][:3])
+        if bad:
+            print('VIOLATION property=C08 replay=%s' % path)
+            return 1
+        return 0
     return simprops.replay_case(path)
